@@ -342,7 +342,14 @@ func (ri *RouteInformation) unmarshal(b []byte) error {
 	if err := checkPreference(ri.Preference); err != nil {
 		return err
 	}
-	ri.Prefix = CopyBytes(b[8 : 8+(pl/8)]) // copy bytes up to prefix len bits
+	n := (int(pl) + 7) / 8 // a prefix length that is not a multiple of 8 ends inside a byte
+	if 8+n > len(b) {
+		return err
+	}
+	ri.Prefix = CopyBytes(b[8 : 8+n]) // copy bytes up to prefix len bits
+	if r := pl % 8; r != 0 {
+		ri.Prefix[n-1] &= 0xff << (8 - r) // bits after the prefix length are reserved
+	}
 
 	return nil
 }
